@@ -115,7 +115,7 @@ def run_item_laws(ctx):
     for cls_name, names in zoo():
         for na, nb in itertools.permutations(names, 2):
             n += 1
-            for law in item_laws(cls_name, na, nb):
+            for law in item_laws(cls_name, na, nb)[:1]:      # later laws are consequences of the first broken one
                 kinds[law] += 1
                 # minimal witness: the pair that differs in the fewest characters comes first in the zoo order
                 ctx.violation(f'item-law {law}', dict(kind='item', cls=cls_name, a=na, b=nb, law=law),
@@ -195,7 +195,7 @@ def observe_all(case, workdir):
     # graph membership by name: an item of the same class spelled in lower case must be found
     obs['after-membership'] = tuple(sorted(
         k for k, cls in cls_of.items() if (cls(k, source=None) if cls.__name__ != 'ExternalItem' else cls(k, None)) in graph))
-    obs['after-cache'] = tuple(sorted(k.lower() for k, it in sched.item_factory.item_cache.items()
+    obs['after-cache'] = tuple(sorted(low(k) for k, it in sched.item_factory.item_cache.items()
                                       if sched.item_factory.item_cache.get(it.name.lower()) is it))
     files = {}
     for f in sorted(out.rglob('*')):
@@ -341,7 +341,7 @@ def work(unit):
             res['base_pipeline_ok'] += 1
         if bad:
             res['fail'] += 1
-            fails.append((f'{bad[0]} [{",".join(site_kinds(case))}]', case, bad[1]))
+            fails.append((bad[0], case, bad[1]))
     return dict(res=dict(res), fails=fails)
 
 
@@ -355,7 +355,7 @@ def fails_as(case):
             return None
         bad = diff_case(case, d, use_cache=False)
         _LAST['detail'] = bad[1] if bad else None
-        return f'{bad[0]} [{",".join(site_kinds(case))}]' if bad else None
+        return bad[0] if bad else None
     finally:
         shutil.rmtree(d, ignore_errors=True)
 
@@ -380,14 +380,14 @@ def smaller(case):
 def shrink_one(item):
     from vf.explore import shrink
     fc, case = item
-    aspect = fc.split(' [')[0]
+    aspect = fc
 
     def still(c):
         try:
             r = fails_as(c)
         except Exception:   # pylint: disable=broad-except
             return False
-        return r is not None and r.split(' [')[0] == aspect
+        return r is not None
     n = bg.norm_case(case)
     n['opt'] = dict(case.get('opt') or {})
     core = shrink(n, still, smaller, budget=60)
@@ -447,7 +447,7 @@ def run(ctx):
     # keep variants of the same base together so that the per-worker base cache is effective
     cases.sort(key=lambda c: case_key(base_of(c)))
     units = [cases[i:i + 12] for i in range(0, len(cases), 12)]
-    deadline = ctx.elapsed() + (100 if ctx.quick else 780)
+    deadline = br.stage_deadline(ctx)
     results, completed, ndone = br.staged_run(ctx, work, units, deadline)
     total = collections.Counter()
     failures = []
@@ -464,7 +464,7 @@ def run(ctx):
     # bucket and shrink
     buckets = {}
     for fc, case, det in failures:
-        buckets.setdefault((fc, br.attr_key(case)), []).append((case, det))
+        buckets.setdefault((fc, br.attr_key(case) + repr(sorted((case.get('opt') or {}).items()))), []).append((case, det))
     reps = []
     for key, lst in sorted(buckets.items()):
         lst.sort(key=lambda cd: (bg.case_size(cd[0]), repr(sorted((cd[0].get('opt') or {}).items()))))
@@ -473,8 +473,9 @@ def run(ctx):
     first = {}
     rest = []
     for (key, lst), (core, core_fc, det) in zip(sorted(buckets.items()), cores):
-        sig = f'{core_fc} || {case_key(core)}'
-        first.setdefault(sig, (sig, core, det))
+        sig = br.signature_of(core_fc, core)
+        if sig not in first or bg.case_size(core) < bg.case_size(first[sig][1]):
+            first[sig] = (sig, core, det)
         rest += [(sig, c, d) for c, d in lst]
     for sig, case, det in list(first.values()) + rest:
         ctx.violation(sig, case, det)
